@@ -23,8 +23,9 @@ PROPERTY = "C07"
 LEVEL = "exploration"
 RULE = ("Model-based: Hypothesis generates two lists of step records [op,a,b,c] (indices resolved modulo "
         "the objects the transition is legal for) interpreted by a reference Tor world (<=6 live circuits, "
-        "<=6 live streams, ids from an 8-value pool so that ids are reused, 8 consensus relays + 3 relays "
-        "absent from the consensus): the first list runs before the controller connects and determines the "
+        "<=6 live streams, ids from an 8-value pool so that ids are reused, 8 consensus relays (two sharing a "
+        "nickname) + 3 relays absent from the consensus: one printed with the nickname of exactly one consensus "
+        "relay, one without nickname, one with a fresh nickname): the first list runs before the controller connects and determines the "
         "circuit-status/stream-status snapshot (0, 1 or many entries; streams in NEW/NEWRESOLVE/SENTCONNECT/"
         "SENTRESOLVE/SUCCEEDED), the second is emitted event by event (CIRC LAUNCHED/EXTENDED/GUARD_WAIT/"
         "BUILT/CLOSED/FAILED incl. re-extension of a cannibalized circuit; STREAM NEW/NEWRESOLVE/REMAP/"
@@ -54,7 +55,9 @@ ASSUMPTIONS = [
     "between a circuit's CLOSED/FAILED and the CLOSED/FAILED of a stream attached to it, the stream may "
     "still be listed under the (retained) dead circuit object or under none - never under another circuit",
     "Circuit.flags must contain every keyword of the latest report (extra keys are tolerated); build flags "
-    "are compared as a sorted list; path hops are compared by identity digest ('$'+40 hex) only",
+    "are compared as a sorted list; path hops are compared by identity digest ('$'+40 hex) only - "
+    "nicknames are not unique and do not identify a relay (a hop outside the consensus may carry the nickname of a "
+    "consensus relay)",
 ]
 
 NEWISH = ("NEW", "NEWRESOLVE", "SUCCEEDED")
@@ -355,6 +358,10 @@ def run(ctx):
 
 
 MUTANTS = [
+    ("unknown-hop-resolved-through-its-nickname", "txtorcon/torstate.py",
+     "            router = Router(self.protocol)\n            idhash = routerid[1:41]",
+     "            known = self.routers_by_name.get(routerid[42:], [])\n            if len(known) == 1:\n"
+     "                return known[0]\n            router = Router(self.protocol)\n            idhash = routerid[1:41]"),
     ("path-reread-only-on-extended-or-while-empty", "txtorcon/circuit.py",
      "                if len(args) > 2:\n                    self.update_path(args[2].split(','))",
      "                if len(args) > 2 and (self.state == 'EXTENDED' or not self.path):\n                    self.update_path(args[2].split(','))"),
